@@ -1,0 +1,27 @@
+//go:build verif
+
+package minijson
+
+// Contracts for govc (see /verif/DESIGN.md, C16). Comment-only file.
+
+//@ smt
+//@ (define-fun isdigit ((c Int)) Bool (and (<= 48 c) (<= c 57)))
+//@ ; fnd(s): index of the first byte of s that is not a decimal digit (len(s) if there is none)
+//@ (declare-fun fnd (Str) Int)
+//@ (assert (forall ((s Str)) (! (let ((p (fnd s))) (and (<= 0 p) (<= p (slen s)) (or (= p (slen s)) (not (isdigit (sat s p))))
+//@     (forall ((j Int)) (! (=> (and (<= 0 j) (< j p)) (isdigit (sat s j))) :pattern ((sat s j)))))) :pattern ((fnd s)))))
+//@ end
+
+// isNumeric(s) must imply that s is a JSON number (RFC 8259 `int frac?` without sign/exponent):
+// at least one leading digit, no superfluous leading zero, and either nothing else or a '.'
+// followed by at least one digit and only digits.
+//@ func isNumeric
+//@   pure
+//@   ensures [int-part] result ==> fnd(s) >= 1
+//@   ensures [no-leading-zero] result ==> fnd(s) == 1 || s[0] != '0'
+//@   ensures [frac] result && fnd(s) != len(s) ==> s[fnd(s)] == '.' && fnd(s) + 1 < len(s)
+//@   ensures [frac-digits] result && fnd(s) != len(s) ==> forall j in [fnd(s) + 1, len(s)) :: isdigit(s[j])
+//@   loop 1 invariant 0 <= i && i <= len(s) && (len(s) > 1 && s[0] == '0' ==> s[1] == '.')
+//@   loop 1 invariant forall j in [0, i) :: isdigit(s[j])
+//@   loop 2 invariant 0 <= i && i <= len(s) && (len(s) > 1 && s[0] == '0' ==> s[1] == '.')
+//@   loop 2 invariant (forall j in [0, i) :: isdigit(s[j])) || (fnd(s) >= 1 && fnd(s) + 1 <= i && fnd(s) + 1 < len(s) && s[fnd(s)] == '.' && (forall j in [fnd(s) + 1, i) :: isdigit(s[j])))
